@@ -1,19 +1,28 @@
 """C14 — dominance queries are exact on every CFG the builder produces.
 
-Lean: Verif/C14/{Dom,Model,Number,Theorems}.lean.
-  Dom.lean      path-based `Dominates` (two roots: entry, recover), verified reference
+Lean: Verif/C14/{Dom,Iter,Model,Number,Fast,Forest,Theorems,FastTheorems}.lean.
+  Dom.lean      path-based `Dominates` (two roots: entry, recover), path-based reference
                 `domSets`/`domRow` (reachability after removal), exact on ALL finite graphs.
-  Number.lean   `numberDomTree` transliterated; interval test = ancestor-or-self.
-  Theorems.lean `domCheck_sound`: the validator accepts only dumps in which the reported
-                Dominates relation is exactly path dominance and Idom / Dominees /
-                DomPreorder / DomPostorder are consistent with it.
+  Iter.lean     PROVED EXECUTABLE ALGORITHM `domBits` (iterative data-flow on bit sets, the
+                scheme of go/ir's sanityCheckDomTree) = `Dominates` on ALL finite graphs.
+  Number.lean   `numberDomTree` transliterated; interval test = ancestor-or-self in any forest.
+  Forest.lean   a forest whose every edge passes `D[w] = {w} ∪ D[v]` IS the dominator forest.
+  Theorems.lean `domCheck_sound` (O(n^3) validator against the path-based reference).
+  FastTheorems.lean `domCheckF_sound`: the any-size validator accepts only dumps in which Idom
+                is the immediate dominator of every block, Dominees its inverse, the listings
+                the traversals of the dominator forest, so that the O(1) interval test — and
+                every dumped Dominates answer — is exactly path dominance for ALL pairs.
 Tie: V — harness/cmd/c14dump builds IR with the real go/ir builder of the tree under test
-and dumps, through the exported API only, CFG + Idom + Dominees + listing positions +
-Dominates rows of every function; the compiled, proved validator runs on every dump.
+and dumps, through the exported API only, CFG + Idom + Dominees + listing positions + the
+COMPLETE Dominates matrix of every function (source functions and everything
+irutil.AllFunctions finds); harness/cmd/c14synth feeds hand-made graphs (random, deep/large,
+multi-block recover regions) to the REAL ir.buildDomTree (go:linkname, no hook).  The compiled,
+proved validators run on every dump: `domCheckF` on every function of any size, `domCheck`
+additionally up to a block-count threshold.
 X — Lean transliterations of buildDomTree (Lengauer-Tarjan, single bucket, two roots) and
-numberDomTree are run on the dumped CFG and compared with the reported Idom/Dominees
-(order included) and listings.
-Oracle on the real code = the proved validator (reachability-after-removal semantics).
+numberDomTree are run on the dumped CFG and compared with the reported Idom (exactly),
+Dominees (as sets) and listings.
+Oracle on the real code = the proved validators.
 Level: translation_validation (exactness proved per produced CFG, programs sampled).
 """
 import hashlib
@@ -25,8 +34,17 @@ from concurrent.futures import ThreadPoolExecutor
 
 import vlib
 
-MODULES = ["Verif.C14.Theorems"]
+MODULES = ["Verif.C14.Theorems", "Verif.C14.FastTheorems"]
+FULL_DUMP = 6000     # the complete Dominates matrix is dumped up to this many blocks
 THEOREMS = [
+    "Verif.C14.domIter1_correct",
+    "Verif.C14.domBits_correct",
+    "Verif.C14.domBits_eq_dom",
+    "Verif.C14.domBits_isSome",
+    "Verif.C14.domBits_total_correct",
+    "Verif.C14.forest_anc_iff_bits",
+    "Verif.C14.domCheckF_sound",
+    "Verif.C14.interval_iff_all_paths",
     "Verif.C14.mem_reachAvoid",
     "Verif.C14.dom_correct",
     "Verif.C14.domSets_correct",
@@ -223,10 +241,11 @@ class Gen:
             return [ind + "{"] + self.block(ctx, depth - 1, i2) + [ind + "}"]
         raise AssertionError(k)
 
-    def goto_graph(self, name):
+    def goto_graph(self, name, n=None):
         """arbitrary (usually irreducible) CFG built from top-level labels and gotos."""
         r = self.r
-        n = 3 + r.below(r.choice([4, 8, 16, 30]))
+        if n is None:
+            n = 3 + r.below(r.choice([4, 8, 16, 30]))
         labs = ["L%d" % i for i in range(n)]
         segs = []
         for i in range(n):
@@ -279,6 +298,15 @@ class Gen:
         out += ["\treturn r", "}"]
         return "\n".join(out)
 
+    def bigfile(self, sizes):
+        """functions with hundreds of labels: large CFGs through the real builder."""
+        fs = []
+        for i, n in enumerate(sizes):
+            self.uid = 0
+            self.hit("fn:biggoto")
+            fs.append(self.goto_graph("big%d" % i, n))
+        return "package p\n\nfunc g(x int) int { return x + 1 }\n\n" + "\n\n".join(fs) + "\n"
+
     def file(self, nfuncs):
         fs = []
         for i in range(nfuncs):
@@ -310,7 +338,8 @@ def parse_dump(text):
         elif k == "F":
             kv = dict(x.split("=", 1) for x in t[4:])
             cur = {"fid": int(t[1]), "pid": int(t[2]), "name": unhex(t[3]), "n": int(kv["nblocks"]),
-                   "recover": kv["recover"], "mode": kv["dom"], "blocks": {}, "rows": []}
+                   "recover": kv["recover"], "mode": kv["dom"], "syn": kv.get("syn", "0") == "1",
+                   "blocks": {}, "rows": []}
         elif k == "B":
             cur["blocks"][int(t[2])] = dict(x.split("=", 1) for x in t[3:])
         elif k == "D":
@@ -331,7 +360,9 @@ class ListingError(Exception):
     property's last clause on a concrete function, not a harness problem."""
 
 
-def case_line(f):
+def case_line(f, ref_limit=0):
+    """ref_limit: functions with a complete matrix and at most that many blocks are also compared
+    with the O(n^3) path-based reference (op chk); all others only by the any-size validator."""
     n, B = f["n"], f["blocks"]
     if sorted(B) != list(range(n)):
         raise vlib.HarnessError("dump of %s: block records %s for n=%d" % (f["name"], sorted(B), n))
@@ -344,7 +375,7 @@ def case_line(f):
         post[b] = i
     if None in pre or None in post:
         raise ListingError("DomPreorder/DomPostorder is not a permutation of the blocks: pre=%s post=%s" % (pre, post))
-    t = ["chk", str(n), f["recover"], "1" if f["mode"] == "full" else "0", "S"] + [B[i]["succs"] for i in range(n)]
+    t = ["chk" if (f["mode"] == "full" and n <= ref_limit) else "chkf", str(n), f["recover"], "1" if f["mode"] == "full" else "0", "S"] + [B[i]["succs"] for i in range(n)]
     t += ["P"] + [B[i]["preds"] for i in range(n)] + ["I"] + [B[i]["idom"] for i in range(n)]
     t += ["C"] + [B[i]["dominees"] for i in range(n)]
     t += ["PRE", ",".join(map(str, pre)), "POST", ",".join(map(str, post)), "R", str(len(f["rows"]))]
@@ -390,10 +421,10 @@ def shape(f):
 
 
 def bucket(n):
-    for b in (1, 2, 4, 8, 16, 32, 64, 128, 256):
+    for b in (1, 2, 4, 8, 16, 32, 64, 128, 256, 512, 1024, 2048, 4096):
         if n <= b:
             return "<=%d" % b
-    return ">256"
+    return ">4096"
 
 
 # ----------------------------------------------------------------------- the run
@@ -413,9 +444,11 @@ class DumpHang(Exception):
 
 class Runner:
     def __init__(self, ctx, tool, full):
-        self.ctx, self.tool, self.full = ctx, tool, full
+        self.ctx, self.tool, self.full = ctx, tool, full     # full = threshold of the O(n^3) reference validator
         self.stats = {"functions": 0, "nontrivial": 0, "pairs": 0, "full": 0, "rows": 0, "recover": 0,
-                      "irreducible": 0, "packages": 0, "skipped_packages": [], "blocks": {}, "max_blocks": 0}
+                      "irreducible": 0, "packages": 0, "skipped_packages": [], "blocks": {}, "max_blocks": 0,
+                      "ref": 0, "fastonly": 0, "synfuncs": 0, "multirecover": 0, "preds_diff": 0}
+        self.preds_diff = []
         self.shapes = set()
         self.samples = []
         self.failures = []      # oracle failures (dicts)
@@ -427,7 +460,10 @@ class Runner:
         """run c14dump; a run that does not finish is asked for its goroutine stacks (SIGQUIT)
         and reported as DumpHang, so that a non-terminating dominator construction is a
         finding with a replay and not a machinery error."""
-        cmd = [self.tool, "-full", str(self.full), "-seed", str(self.ctx.seed)] + args
+        cmd = [self.tool, "-full", str(FULL_DUMP), "-seed", str(self.ctx.seed)] + args
+        return self.run_tool(cmd, args, cwd, timeout)
+
+    def run_tool(self, cmd, args, cwd=None, timeout=300):
         p = subprocess.Popen(cmd, cwd=cwd, env=vlib.go_env(), stdout=subprocess.PIPE, stderr=subprocess.PIPE, text=True)
         try:
             so, se = p.communicate(timeout=timeout)
@@ -444,6 +480,10 @@ class Runner:
         return so
 
     hung = False
+    synth = None        # path of c14synth (None: does not build against this tree)
+
+    def run_synth(self, args):
+        return self.run_tool([self.synth] + list(args), list(args), timeout=600)
 
     def hang(self, h, origin, sources):
         """a dump that did not finish: a finding if the stacks are inside the dominance code."""
@@ -455,7 +495,7 @@ class Runner:
 
     def dump_src(self, files, origin, sources):
         try:
-            return self.dump(["-src"] + list(files))
+            return self.dump(["-all", "-src"] + list(files))
         except DumpHang as h:
             self.hang(h, origin, sources)
             return ""
@@ -469,6 +509,8 @@ class Runner:
                 if err.startswith("builder panic"):
                     rec = {"origin": origin, "package": p["path"], "file": p["file"], "kind": "panic",
                            "error": err[:6000], "source": (sources or {}).get(p["file"])}
+                    if p["path"].startswith("synthetic/"):
+                        rec["synth_args"] = synth_args(self.ctx)
                     if in_dom_code(err):
                         self.crashes.append(rec)
                     else:
@@ -485,7 +527,7 @@ class Runner:
         lines, ok_funcs = [], []
         for f in funcs:
             try:
-                lines.append(case_line(f))
+                lines.append(case_line(f, self.full))
                 ok_funcs.append(f)
             except ListingError as e:
                 pk = pkgs.get(f["pid"], {})
@@ -527,7 +569,18 @@ class Runner:
                                          "idom": [f["blocks"][i]["idom"] for i in range(min(n, 24))],
                                          "verdict": out})
         tok = out.split(" ")
-        verdict, num, lt = tok[0], tok[1], tok[2]
+        if len(tok) < 4 or not tok[3].startswith("preds="):
+            raise vlib.HarnessError("unexpected c14driver output for %s: %s" % (f["name"], out[:200]))
+        verdict, num, lt, pc = tok[0], tok[1], tok[2], tok[3]
+        st["ref" if line.startswith("chk ") else "fastonly"] += 1
+        if f.get("syn"):
+            st["synfuncs"] += 1
+        if f["recover"] != "-" and (f["blocks"][int(f["recover"])]["succs"] != "-"):
+            st["multirecover"] += 1
+        if pc != "preds=ok":
+            st["preds_diff"] += 1
+            if len(self.preds_diff) < 10:
+                self.preds_diff.append("%s (%s)" % (f["name"], origin))
         pk = pkgs.get(f["pid"], {})
         src = None
         if sources and pk.get("file") in sources:
@@ -535,9 +588,12 @@ class Runner:
         rec = {"origin": origin, "package": pk.get("path"), "file": pk.get("file"), "function": f["name"],
                "blocks": n, "recover": f["recover"], "mode": f["mode"], "driver_output": out,
                "case_line": line, "source": src}
+        if (pk.get("path") or "").startswith("synthetic/"):
+            rec["synth_args"] = synth_args(self.ctx)
+            rec["graph"] = {"succs": [f["blocks"][i]["succs"] for i in range(n)] if n <= 64 else "see case_line"}
         if verdict != "ok":
             rec["clause"] = verdict.split(":", 1)[-1]
-            rec["details"] = " ".join(tok[3:])
+            rec["details"] = " ".join(tok[4:])
             self.failures.append(rec)
         elif num != "num=ok" or lt != "lt=ok":
             self.corr.append(rec)
@@ -559,6 +615,12 @@ def gen_sources(ctx, nfiles, per_file, tag):
         for k, v in g.hist.items():
             hist[k] = hist.get(k, 0) + v
     return files, texts, hist
+
+
+def synth_args(ctx):
+    q = ctx.quick
+    return ["-seed", str(ctx.seed), "-count", "300" if q else "2000", "-maxn", "40" if q else "64",
+            "-big", "1000" if q else "2000", "-nbig", "4" if q else "5", "-full", str(FULL_DUMP)]
 
 
 def chunks(xs, k):
@@ -583,7 +645,12 @@ def replay(ctx, R):
                 paths[p] = text
             R.process(R.dump_src(sorted(paths), "replay", paths), "replay", sources=paths, strict=True)
         elif c.get("package"):
-            R.process(R.dump(["-dir", vlib.REPO, "-pkgs", c["package"]], timeout=1500), "replay")
+            if c["package"].startswith("synthetic/"):
+                if R.synth is None:
+                    raise vlib.HarnessError("replay of a synthetic graph needs harness/cmd/c14synth, which does not build")
+                R.process(R.run_synth(c.get("synth_args") or synth_args(ctx)), "replay")
+            else:
+                R.process(R.dump(["-all", "-dir", vlib.REPO, "-pkgs", c["package"]], timeout=1500), "replay")
         else:
             continue
         if c.get("function"):
@@ -612,6 +679,14 @@ def run(ctx):
     lap("go_build")
     quick = ctx.quick
     R = Runner(ctx, tool, full=128 if quick else 384)
+    synth_note = None
+    try:
+        Runner.synth = vlib.build_harness(ctx, "c14synth")
+    except vlib.BuildError as e:
+        # c14synth reaches the unexported ir.buildDomTree by name; a tree that renamed it is not wrong
+        Runner.synth = None
+        synth_note = "harness/cmd/c14synth does not build against this tree (stream skipped): " + str(e)[-300:]
+    lap("go_build_synth")
     hist = {}
 
     if not have_driver:
@@ -656,9 +731,27 @@ def run(ctx):
             done = list(ex.map(one, groups))
         for r2 in done:
             merge(R, r2)
+        # 3b. large functions through the real builder (hundreds of labels)
+        g = Gen(vlib.SplitMix(ctx.seed).fork("c14/big"))
+        bsrc = g.bigfile([150, 300, 500, 800] if quick else [150, 300, 500, 800, 1200, 1600])
+        bp = ctx.path("gen", "big", "big.go")
+        with open(bp, "w") as fh:
+            fh.write(bsrc)
+        for k, v in g.hist.items():
+            hist[k] = hist.get(k, 0) + v
+        R.process(R.dump_src([bp], "generated-big", {bp: bsrc}), "generated-big", sources={bp: bsrc}, strict=True)
         lap("generated")
         if R.hung:
             return
+        # 3c. hand-made graphs through the REAL ir.buildDomTree (go:linkname)
+        if R.synth is not None:
+            try:
+                so = R.run_synth(synth_args(ctx))
+            except DumpHang as h:
+                R.hang(h, "synthetic", None)
+                return
+            R.process(so, "synthetic")
+        lap("synthetic")
         # 4. real packages: the repository under test and the standard library
         if quick:
             pats = [["./go/ir", "./pattern", "./unused", "go/types", "regexp/syntax", "encoding/json", "fmt"]]
@@ -666,10 +759,22 @@ def run(ctx):
             pats = [["./..."], ["std"]]
         for pat in pats:
             try:
-                so = R.dump(["-dir", vlib.REPO, "-pkgs"] + pat, timeout=1500)
+                so = R.dump(["-all", "-dir", vlib.REPO, "-pkgs"] + pat, timeout=1500)
             except DumpHang as h:
                 R.hang(h, "packages " + " ".join(pat), None)
                 return
+            except vlib.HarnessError as e:
+                # the builder runs function bodies in worker goroutines: a panic there (e.g. lifting walking a
+                # wrong dominator tree) kills the whole dump.  Inside the dominance code it is a finding; if the
+                # earlier streams already found failures, report those instead of a machinery error.
+                if in_dom_code(str(e)):
+                    R.crashes.append({"origin": "packages " + " ".join(pat), "package": " ".join(pat), "file": None,
+                                      "kind": "panic", "error": str(e)[-6000:], "source": None})
+                    return
+                if R.failures or R.crashes:
+                    ctx.coverage["package_stream_error"] = str(e)[-600:]
+                    return
+                raise
             R.process(so, "packages " + " ".join(pat))
 
     if ctx.replay:
@@ -685,8 +790,9 @@ def run(ctx):
         "programs": st["functions"],
         "disagreements_checked": st["pairs"],
         "distinct_nontrivial": len(R.shapes),
-        "rule": "a case is one built function; evaluations = ordered block pairs whose reported Dominates answer was "
-                "compared with the proved reference; non-trivial = function with >= 3 blocks and >= 1 join block "
+        "rule": "a case is one built function (or one hand-made graph given to the real buildDomTree); evaluations = "
+                "ordered block pairs whose reported Dominates answer was compared with the proved dominator sets "
+                "(domBits; up to the reference threshold also with the path-based reference); non-trivial = function with >= 3 blocks and >= 1 join block "
                 "(>= 2 predecessors) or >= 1 retreating edge; distinct = distinct (n, recover, succs) shapes",
         "functions_validated": st["functions"], "nontrivial_functions": st["nontrivial"],
         "full_matrix_functions": st["full"], "sampled_rows_functions": st["rows"],
@@ -695,20 +801,57 @@ def run(ctx):
         "blocks_histogram": st["blocks"], "max_blocks": st["max_blocks"],
         "generator_histogram": dict(sorted(hist.items())),
         "samples": R.samples,
-        "full_matrix_threshold": R.full,
+        "reference_validator_threshold": R.full, "full_matrix_dump_limit": FULL_DUMP,
+        "validated_by_domCheckF_and_domCheck": st["ref"], "validated_by_domCheckF_only": st["fastonly"],
+        "synthetic_functions_and_graphs": st["synfuncs"],
+        "recover_block_with_successors": st["multirecover"],
+        "preds_succs_inconsistent_functions": st["preds_diff"], "preds_succs_inconsistent_samples": R.preds_diff,
+        "synthetic_stream": synth_note or "harness/cmd/c14synth " + " ".join(synth_args(ctx)),
     })
     ctx.assumptions += [
-        "translation validation: exactness is proved per dumped function by running the compiled validator "
-        "(domCheck_sound is kernel-checked, its evaluation on a dump is compiled Lean); the quantifier over "
-        "programs is sampled (generator + corpus + go/ir testdata + repository/std packages)",
-        "functions with more than %d blocks: only sampled rows (and the idom chains of the sampled blocks) of the "
-        "relation are validated, Idom exactness is not" % R.full,
-        "harness/cmd/c14dump (exported go/ir API -> records) and the python record->case conversion are trusted",
-        "buildDomTree (Lengauer-Tarjan) is tied only by correspondence (Lean transliteration compared on every dump), "
-        "no theorem about LT itself is claimed",
+        "translation validation: exactness is proved per dumped function by running the compiled validators "
+        "(domCheckF_sound / domCheck_sound are kernel-checked, their evaluation on a dump is compiled Lean); the "
+        "quantifier over programs is sampled (generator + corpus + go/ir testdata + repository/std packages + "
+        "hand-made graphs)",
+        "every function of any size is validated completely by domCheckF (Idom, Dominees, listings, interval test for "
+        "all pairs, and every dumped Dominates answer); the complete Dominates matrix is dumped up to %d blocks, "
+        "above that only sampled rows of the black-box Dominates answers are compared (no function that large "
+        "occurs in the explored inputs); the O(n^3) comparison with the path-based reference (domCheck) "
+        "additionally runs up to %d blocks" % (FULL_DUMP, R.full),
+        "harness/cmd/c14dump (exported go/ir API -> records), harness/cmd/c14synth (hand-made ir.Function values, "
+        "ir.buildDomTree reached by go:linkname) and the python record->case conversion are trusted",
+        "buildDomTree (Lengauer-Tarjan) itself has no theorem; it is tied by validation of its result on every "
+        "explored graph and by correspondence with the Lean transliteration ltBuild; the proved algorithm next to "
+        "it is the iterative domBits",
+        "the recover block the builder creates is a lone return (createRecoverBlock), so multi-block recover regions "
+        "reach the real buildDomTree only through c14synth's hand-made graphs (recover root without predecessors)",
+        "Preds = inverse of Succs is probed on every dump (coverage preds_succs_inconsistent_functions) but is C02's "
+        "subject; the validators derive everything from Succs and need no such hypothesis",
     ]
 
     ctx.coverage["builder_panics_outside_dominance_code"] = R.panics_elsewhere[:10]
+    # hand-made graphs with a multi-block recover region are NOT realisable by today's builder (its recover
+    # block is a lone return).  A failure seen only there is a failure of the generalised algorithm, not of a
+    # dominance query on a CFG the builder produces: it is reported as "no failing input found".
+    def beyond(x):
+        return (x.get("package") or "") == "synthetic/recover"
+    beyond_only = [x for x in R.failures + R.crashes if beyond(x)]
+    R.failures = [x for x in R.failures if not beyond(x)]
+    R.crashes = [x for x in R.crashes if not beyond(x)]
+    if beyond_only and not R.failures and not R.crashes:
+        beyond_only.sort(key=lambda x: x.get("blocks") or 0)
+        ctx.violation("synthetic_recover_region.json", {
+            "what": "the real ir.buildDomTree gives inexact dominance (or panics) on hand-made graphs whose recover "
+                    "block has successors (recover root without predecessors; blocks reachable only from it). "
+                    "Today's builder emits the recover block as a lone return, so no built function shows the "
+                    "failure; every function built from source was validated.",
+            "how_to_replay": "./check C14 --replay <this file> (runs harness/cmd/c14synth with `synth_args`); the graph "
+                             "is in `graph`/`case_line` (S = Succs per block) or in `error`",
+            "correspondence": "stream synthetic/recover of harness/cmd/c14synth against domCheckF/domCheck",
+            "first": beyond_only[0], "count": len(beyond_only),
+            "cases": [dict(x, source=None) for x in beyond_only[1:10]],
+        }, nofail=True)
+        return vlib.finish(ctx, "translation_validation")
     if R.crashes:
         R.crashes.sort(key=lambda c: len(c.get("source") or "") or 10**9)
         first = R.crashes[0]
@@ -753,7 +896,8 @@ def run(ctx):
 
 def merge(R, r2):
     a, b = R.stats, r2.stats
-    for k in ("functions", "nontrivial", "pairs", "full", "rows", "recover", "irreducible", "packages"):
+    for k in ("functions", "nontrivial", "pairs", "full", "rows", "recover", "irreducible", "packages",
+              "ref", "fastonly", "synfuncs", "multirecover", "preds_diff"):
         a[k] += b[k]
     a["skipped_packages"] += b["skipped_packages"]
     a["max_blocks"] = max(a["max_blocks"], b["max_blocks"])
@@ -764,6 +908,7 @@ def merge(R, r2):
         if len(R.samples) < 8:
             R.samples.append(s)
     R.failures += r2.failures
+    R.preds_diff += r2.preds_diff
     R.corr += r2.corr
     R.crashes += r2.crashes
     R.panics_elsewhere += r2.panics_elsewhere
@@ -772,17 +917,30 @@ def merge(R, r2):
 
 META = {
     "level": "translation_validation",
-    "technique": "Lean 4: path-based dominance spec with two roots, verified reference algorithm (reachability after "
-                 "removal) exact on all finite graphs, proved validator run on the dump of every function built by "
-                 "the real go/ir builder; Lean transliterations of buildDomTree/numberDomTree compared by correspondence",
-    "text": "domSets_correct/domRow_correct: the reference relation is exactly path dominance on every finite graph. "
-            "domCheck_sound: a dump accepted by the validator reports exactly path dominance for all ordered block "
-            "pairs, Idom is the immediate dominator, Dominees its inverse, DomPreorder/DomPostorder are traversals of "
-            "the dominator forest whose positions decide dominance. ancestor_iff_intervals: the numbering of "
-            "numberDomTree makes the O(1) interval test ancestor-or-self. The validator runs on every function of the "
-            "corpus, go/ir testdata, seeded generated programs (goto-built arbitrary/irreducible CFGs, loops, switch/"
-            "fallthrough, labelled break/continue, select, range-over-func, defer+recover) and repository/std packages.",
+    "technique": "Lean 4: path-based dominance spec with two roots; path-based reference (reachability after removal) and "
+                 "a proved, total, executable iterative algorithm on bit sets (domBits), both exactly the spec on all "
+                 "finite graphs; a proved any-size validator (domCheckF) run on the dump of every function built by the "
+                 "real go/ir builder and on hand-made graphs given to the real ir.buildDomTree; the O(n^3) validator "
+                 "against the path-based reference (domCheck) up to a block-count threshold; Lean transliterations of "
+                 "buildDomTree/numberDomTree compared by (order-tolerant) correspondence",
+    "text": "domBits_total_correct/domBits_eq_dom: the iterative bit-set algorithm always terminates with exactly path "
+            "dominance (two-root reading) on every finite graph, and equals the path-based reference dom. "
+            "forest_anc_iff_bits + ancestor_iff_positions/ancestor_iff_intervals: a forest whose every edge v->w has "
+            "D[w] = {w} + D[v] is the dominator forest, and the O(1) interval test on numberDomTree's numbers decides its "
+            "ancestor relation. domCheckF_sound (functions of ANY size, even without rows): an accepted dump has Idom = "
+            "immediate dominator of every block, Dominees its inverse, DomPreorder/DomPostorder = pre/postorder "
+            "traversals of the dominator forest, interval test on listing positions = path dominance for all ordered "
+            "pairs, every dumped Dominates answer exact (all pairs when the complete matrix is dumped, which it is up to "
+            "6000 blocks). domCheck_sound: the same against the path-based reference, run up to 128/384 blocks. The "
+            "validators run on every function of the corpus, go/ir testdata, seeded generated programs (goto-built "
+            "arbitrary/irreducible CFGs, loops, switch/fallthrough, labelled break/continue, select, range-over-func, "
+            "defer+recover, functions with 150-800 labels), repository/std packages incl. wrappers, thunks, bound methods, "
+            "instantiations (irutil.AllFunctions), and on hand-made graphs (random, deep, long-spine, multi-block recover "
+            "regions, up to 1000/2000 blocks) passed to the real ir.buildDomTree via go:linkname.",
     "note": "Trusted: Lean kernel (axioms propext/Classical.choice/Quot.sound), compiled c14driver, harness/cmd/c14dump, "
-            "python record conversion. Quantifier over programs is sampled; LT itself is tied by correspondence only.",
+            "harness/cmd/c14synth (hand-made ir.Function values), python record conversion. Quantifier over programs is "
+            "sampled. Lengauer-Tarjan itself (ltBuild) has no theorem: it is tied by complete validation of every result "
+            "and by correspondence. Multi-block recover regions are not realisable by today's builder; failures seen only "
+            "there are reported as no-failing-input-found. Preds = inverse of Succs is probed, not assumed.",
     "design_ref": "DESIGN.md section 5, C14; Appendix A",
 }
